@@ -18,11 +18,20 @@ Monitors (all judged on what the real objects returned / what the wrapped callab
                coordinates around the point in dimension d (K = 1 per dimension, derivation below);
   bounds       a cache with function_boundaries and one without agree up to the rounding allowance.
 
-Rounding allowance (DESIGN C14, frozen): A = 64 eps r^3 S, r = 1 + max_d |x_d|max / h_d (|x_d|max, h_d = largest
-absolute node coordinate / smallest node gap among the recorded nodes of dimension d), S = magnitude bound of the
-function (sum of absolute term magnitudes over the recorded hull; max with |bound_min|, |bound_max| when value bounds
-are supplied: (v - min)/delta*delta + min rounds at eps (|v| + |min|)).  Comparisons whose allowance exceeds 1e-3 S
-cannot separate a real defect from cancellation and are counted under <monitor>_weak, not under the deciding monitor.
+Rounding allowance (stated once, used by node / multilinear / errbound / bounds; computed from the RECORDED nodes):
+    tol = 1e-9 S + max(A_design, A_model)
+    A_design = 64 eps (1 + max_d rho_d)^3 S                      (DESIGN C14, frozen; rho_d = |x_d|max / h_d,min)
+    A_model  = 64 eps S prod_d [1 + 2 rho_d th1_d + 8 rho_d^2 (1 + rho_d) th2_d]
+               th1_d = min(1, H_d max|df/dx_d| / S_f), th2_d = min(4, 6 H_d^2 max|d2f/dx_d2| / S_f)
+  S_f = magnitude bound of the function (sum of absolute term magnitudes over the recorded hull), S = max(S_f,
+  |bound_min|, |bound_max|) when value bounds are supplied ((v - min)/delta*delta + min rounds at eps (|v| + |min|)).
+  A_model is eps times the summed magnitude of the monomials of the cell cubic written in absolute coordinates (the
+  documented evaluation scheme): local coefficients a_0 <= S_f, a_1 ~ H f', a_2, a_3 <= 6 H^2 max|f''| get multiplied
+  by (2 rho)^k; for multilinear functions it reduces to prod_d (1 + 2 |x_d| |df/dx_d| / S_f), the cancellation of the
+  function itself.  Steep or under-resolved functions legitimately lose digits far from the origin; this term keeps
+  them from being reported.  The bounds clause allows 2 tol (two caches).  Comparisons whose allowance exceeds 1e-3 S
+  cannot separate a defect from cancellation: they are still judged but counted under <monitor>_weak, not under the
+  deciding monitor.
 
 Why K = 1: the cached interpolant is a tensor product of a 1-D operator P that matches values at the two cell nodes and
 uses secant slopes over the neighbouring nodes (P reproduces linear functions, |P g| <= 1.5 max|g|).  In 1-D
@@ -72,11 +81,12 @@ TECHNIQUE = ("runtime monitoring: history independence (fresh caches driven with
              "reference-model oracle (multilinear exactness with computed cancellation allowance, h^2 max|f''| bound)")
 ASSUMPTIONS = ["wrapped functions are deterministic, finite and pure (the recording wrapper only appends to a list)",
                "in-area = at least 3e-7 inside every face of the area, out-of-area = at least 3e-7 outside one face",
-               "rounding allowance 64 eps (1+|x|max/h)^3 S as derived in DESIGN C14; clauses whose allowance exceeds "
-               "1e-3 S are reported as *_weak evaluations only",
+               "rounding allowance 1e-9 S + max(64 eps (1+|x|max/h)^3 S [DESIGN C14], eps x magnitude of the absolute-"
+               "coordinate monomials of the cell cubic); clauses whose allowance exceeds 1e-3 S count as *_weak only",
+               "each case runs in a forked child (os.fork + pipe); a child killed by a signal is a violation crash:<Class>:<SIG>",
                "value bounds are finite with min <= max"]
-QUICK = dict(cases=800, workers=2, timecap=40)
-THOROUGH = dict(cases=60000, workers=16, timecap=600)
+QUICK = dict(cases=600, workers=2, timecap=30)
+THOROUGH = dict(cases=40000, workers=16, timecap=600)
 REQUIRED = {"history": 3000, "repeat": 100, "outside_raise": 300, "outside_passthrough": 300, "inside": 3000,
             "node": 1000, "multilinear": 500, "errbound": 1000, "bounds": 300}
 
@@ -600,7 +610,7 @@ def _envelope(F, case, nodes, pts, bounds):
                 a_design=a_design, a_model=a_model)
 
 
-def _judge(ctx, name, err, tol, weak):
+def _judge(ctx, name, err, tol, weak, cname=""):
     """Count under the deciding monitor only when the cancellation allowance leaves the clause decidable."""
     err = np.asarray(err, dtype=float)
     tol = np.broadcast_to(np.asarray(tol, dtype=float), err.shape)
@@ -611,7 +621,7 @@ def _judge(ctx, name, err, tol, weak):
     ratio = np.where(np.isfinite(err), ratio, np.inf)
     fin = ratio[np.isfinite(ratio) & (ratio <= 1.0)]     # margin of the comparisons that held; failures are reported
     if fin.size:
-        ctx.margin(mon, float(fin.max()))
+        ctx.margin(mon + ":" + cname, float(fin.max()))     # per class: the 3-D margins carry the sub-threshold tail of the known round-off finding
     bad = ~(ratio <= 1.0)
     if bad.any():
         return int(np.argmax(np.where(np.isnan(ratio), np.inf, ratio)))
@@ -653,6 +663,7 @@ def _clauses(ctx, case, F, f, lo, hi, bounds, pts, vals, nodes, cache, diag=Fals
     S, allow, weak = env["S"], env["tol"], env["weak"]
     info = dict(allowance=allow, a_design=env["a_design"], a_model=env["a_model"], rho=env["rho"], S=S, fkind=F.kind)
     c = _NoCount() if diag else ctx
+    judged = False
     P = np.array(pts, dtype=float).reshape(-1, dim)
     V = np.array(vals, dtype=float)
     W = np.array([f(*p) for p in pts], dtype=float)
@@ -664,7 +675,8 @@ def _clauses(ctx, case, F, f, lo, hi, bounds, pts, vals, nodes, cache, diag=Fals
     if inn:
         gv = [cache(*n) for n in inn]
         wv = [f(*n) for n in inn]
-        k = _judge(c, "node", np.abs(np.array(gv) - np.array(wv)), allow, weak)
+        k = _judge(c, "node", np.abs(np.array(gv) - np.array(wv)), allow, weak, CLS[dim])
+        judged = True
         if k is not None:
             fails.append(("node-exact", "value at a sampling node (an argument the wrapped function received) differs from "
                           "the wrapped function beyond the rounding allowance",
@@ -674,7 +686,8 @@ def _clauses(ctx, case, F, f, lo, hi, bounds, pts, vals, nodes, cache, diag=Fals
     # ---- multilinear reproduction ----------------------------------------------------------------------
     e = np.abs(V - W)
     if F.kind in ("const", "multilinear"):
-        k = _judge(c, "multilinear", e, allow, weak)
+        k = _judge(c, "multilinear", e, allow, weak, CLS[dim])
+        judged = True
         if k is not None:
             fails.append(("multilinear", "a function that is linear in each coordinate is not reproduced within the rounding "
                           "allowance", dict(point=list(P[k]), got=float(V[k]), want=float(W[k]), tol=allow, **info)))
@@ -685,7 +698,8 @@ def _clauses(ctx, case, F, f, lo, hi, bounds, pts, vals, nodes, cache, diag=Fals
         for d in range(dim):
             tol = tol + (Hs[:, d] / ext[d]) ** 2 * cu[d]
         if ok.any():
-            k = _judge(c, "errbound", e[ok], tol[ok], weak)
+            k = _judge(c, "errbound", e[ok], tol[ok], weak, CLS[dim])
+            judged = True
             if k is not None:
                 kk = int(np.flatnonzero(ok)[k])
                 fails.append(("errbound", "interpolation error exceeds sum_d H_d^2 max|d2f/dx_d2| plus the rounding allowance",
@@ -693,13 +707,13 @@ def _clauses(ctx, case, F, f, lo, hi, bounds, pts, vals, nodes, cache, diag=Fals
                                    H=list(Hs[kk]), curv_norm=cu, **info)))
         if (~ok).any() and not diag:
             ctx.skip("point without four recorded neighbouring node coordinates: error bound not evaluated")
-    return fails, not weak
+    return fails, judged and not weak
 
 
 def _bounds_clause(ctx, case, F, bounds, pts, vals, vals_nb, nodes_nb, diag=False):
     env = _envelope(F, case, nodes_nb, pts, bounds)
     e = np.abs(np.array(vals, dtype=float) - np.array(vals_nb, dtype=float))
-    k = _judge(_NoCount() if diag else ctx, "bounds", e, 2 * env["tol"], env["weak"])
+    k = _judge(_NoCount() if diag else ctx, "bounds", e, 2 * env["tol"], env["weak"], CLS[case["dim"]])
     fails = []
     if k is not None:
         fails.append(("bounds", "supplying function_boundaries changes the result beyond the rounding allowance",
@@ -764,11 +778,17 @@ class _SubCtx:
 CASE_WATCHDOG_S = 600
 
 
+def crash_hint(case):
+    """Used by vf.core when a whole worker dies with this case in flight (in-process mode only)."""
+    return CLS[case["dim"]]
+
+
 def run_case(case, ctx):
     """Every case runs in a forked child: the caching modules are compiled without bounds checks, so a wrong cell index
     corrupts the heap and may kill the process; the parent turns the death of the child into a violation witnessed by
     the case in flight instead of losing the whole shard (set C14_NOFORK=1 to run in-process for debugging)."""
-    if os.environ.get("C14_NOFORK"):
+    if os.environ.get("C14_NOFORK") or os.environ.get("VF_ASAN_DIR"):
+        # (under the framework's ASan pass the worker itself must die so that vf.core attributes the ASan report)
         return _run_case(case, ctx)
     import cherab.core.math  # noqa: F401  (import in the parent so that every child inherits the loaded modules)
     rfd, wfd = os.pipe()
